@@ -181,12 +181,16 @@ end
 /-- `Path.BestPath` -/
 def bestPath (hex : Nat → Bytes) (st : State) (fuel i : Nat) : Bytes := bestOf hex st i (path hex st fuel i)
 
+/-- the recursion of `Path()` follows parent pointers; a parent describes an object that contains
+    the child, so object indices grow along the chain and this fuel is never exhausted -/
+def maxOid (st : State) : Nat := st.arena.foldl (fun m r => max m r.oid) 0
+
 /-- `Path.String()`: "<oid>" or "<oid> (<path>)" -/
 def pathString (hex : Nat → Bytes) (st : State) (i : Nat) : Bytes :=
   match st.arena[i]? with
   | none => []
   | some p =>
-    let s := path hex st (st.arena.length + 1) i
+    let s := path hex st (maxOid st + 1) i
     if s = [] then hex p.oid else hex p.oid ++ [32, 40] ++ s ++ [41]
 
 end GitSizer.PathRes
